@@ -439,8 +439,10 @@ def run(ctx):
         ctx.outcome('not-judged(grey): %s' % reason, n)
     ctx.count('cases_with_known_defect_trigger', len(trig))
     ctx.count('cases_without_trigger', len(plain))
-    # cases that can trigger a known-shaped failure cost three loads each: small chunks, scheduled first
-    work = [trig[i:i + 60] for i in range(0, len(trig), 60)]
+    # cases that can trigger a known-shaped failure cost three loads each: small chunks, scheduled first; strided so
+    # that every chunk mixes all families (the first failures kept for reporting then cover every failure class)
+    nchunks = max(1, len(trig) // 60)
+    work = [trig[i::nchunks] for i in range(nchunks)]
     step = 400 if ctx.thorough else 150
     work += [plain[i:i + step] for i in range(0, len(plain), step)]
     ctx.pmap('verif.props.c03', 'worker', work)
